@@ -11,6 +11,7 @@ import (
 	"google.golang.org/protobuf/internal/verifh/core"
 	"google.golang.org/protobuf/proto"
 	"google.golang.org/protobuf/reflect/protoreflect"
+	"google.golang.org/protobuf/types/known/anypb"
 	"google.golang.org/protobuf/types/known/structpb"
 )
 
@@ -173,7 +174,15 @@ func randJSONValue(r *rand.Rand, depth int) any {
 // wktCase builds a Value / Struct / ListValue with representable content; these types are ordinary messages for the
 // round-trip claim (their special JSON forms are C23's subject), so the expectation is the same: content comes back.
 func wktCase(r *rand.Rand) (string, map[string]any) {
-	switch r.IntN(3) {
+	switch r.IntN(4) {
+	case 3:
+		// an Any whose JSON object carries strings that need escaping: protojson scans such an object twice (once for "@type")
+		inner := structpb.NewStringValue([]string{"a\"b", "c\\d", "e\nf", "\u0001g\"", "plain"}[r.IntN(5)] + []string{"", "\"\\", "z"}[r.IntN(3)])
+		a, err := anypb.New(inner)
+		if err != nil {
+			panic("harness: " + err.Error())
+		}
+		return "google.protobuf.Any", Project(a.ProtoReflect())
 	case 0:
 		v, err := structpb.NewValue(randJSONValue(r, 2))
 		if err != nil {
